@@ -283,6 +283,16 @@ func (p *Policy) AddToSuspiciousPeerList(pubkey string) error {
 }
 
 func addLineToFile(filePath, line string) error {
+	// A hand-edited policy file may lack a final newline. Start a new line
+	// first so that the setting is not glued onto the last line of the file.
+	content, err := os.ReadFile(filePath)
+	if err != nil {
+		return err
+	}
+	if len(content) > 0 && content[len(content)-1] != '\n' {
+		line = "\n" + line
+	}
+
 	file, err := os.OpenFile(filePath, os.O_APPEND|os.O_WRONLY, 0660)
 	if err != nil {
 		return err
